@@ -9,9 +9,11 @@ RULE = ("K: (a) UniformGrid.resolve, RectilinearGrid.uniform(center=..) and Quas
         "RectilinearGrid.uniform(shape, h, center) and vs the model; (c) _metric_scale / _backward_edge_average on resolved equal-width grids (flagged uniform, and with the "
         "flag forced off so that the general formula runs) and on stretched grids vs model (1e-12); time_step_duration vs "
         "the C37 model; (d) THE PROPERTY: place_objects + run_fdtd of a tiny random scene (even/odd shapes 4..8, per-axis "
-        "boundary pairs from periodic / PEC-PMC / PML / mixed, plane or dipole source, dielectric block, Field + Energy + "
+        "boundary pairs from periodic / PEC-PMC / PML / mixed; source cycling through uniform plane, tilted Gaussian plane, "
+        "dipole, Gaussian plane, tilted uniform plane; dielectric block, Field + Energy + "
         "PoyntingFlux + Phasor detectors, volume by lengths or by cell counts, random grid centre) under the descriptions "
-        "uniform policy, explicit grid with the same edges, explicit grid with shifted origin, quasi-uniform policy: final "
+        "uniform policy, explicit grid with the same edges, explicit grid written lower-corner style (edges 0,h,2h..), "
+        "explicit grid with a far translated origin (either sign), quasi-uniform policy: final "
         "E/H and every detector record agree with the uniform-policy run to 1e-9 of the record's scale. "
         "non-trivial = error branch, tie, forced-general branch, or a scene with a non-periodic face.")
 
@@ -292,7 +294,8 @@ def run_metric(ctx):
 # ------------------------------------------------------------------------- (d) run_fdtd scenes
 PAIRS = {"periodic": ("periodic", "periodic"), "pecpmc": ("pec", "pmc"), "pmcpec": ("pmc", "pec"), "pml": ("pml", "pml"),
          "pecpml": ("pec", "pml"), "pmlpmc": ("pml", "pmc"), "pec": ("pec", "pec")}
-DESCS = ["uniform", "rect", "rect_shift", "quasi"]
+DESCS = ["uniform", "rect", "rect_corner", "rect_shift", "quasi"]
+SRC_CYCLE = ["plane", "gauss_tilt", "dipole", "gauss", "plane_tilt"]
 
 
 def gen_scene(rng, small=False):
@@ -304,12 +307,14 @@ def gen_scene(rng, small=False):
         opts = ["periodic", "pecpmc", "pmcpec", "pec"] + (["pml", "pecpml", "pmlpmc"] if shape[a] >= 6 else [])
         bt.append("periodic" if small and a < 2 else rng.choice(opts))
     h = rng.choice([5e-8, 2.5e-8, 1.23456789e-8, 1e-7])
-    return {"op": "scene", "shape": shape, "h": h, "bt": bt, "src": rng.choice(["plane", "dipole"]),
+    return {"op": "scene", "shape": shape, "h": h, "bt": bt, "src": rng.choice(SRC_CYCLE),
+            "tilt": [rng.choice([7.0, -12.0, 20.0]), rng.choice([5.0, -9.0, 0.0])],
             "axis": rng.randint(0, 2), "T": rng.randint(8, 14), "vol": rng.choice(["real", "real", "grid"]),
             # policy centre off the origin: multiples and non-multiples of the spacing, both signs, |c| > h/2 mostly
             "center": [rng.choice([0.0, rng.randint(1, 3) * h, -rng.uniform(0.6, 3.4) * h, rng.uniform(0.6, 3.4) * h])
                        for _ in range(3)],
-            "shift": [rng.uniform(-20, 20) * h for _ in range(3)], "eps": rng.choice([1.0, 2.25, 4.0]),
+            # origin of the translated explicit grid: far positive / negative, not a multiple of the spacing
+            "shift": [rng.choice([-1, 1]) * rng.uniform(5, 40) * h for _ in range(3)], "eps": rng.choice([1.0, 2.25, 4.0]),
             "sigma": rng.choice([0.0, 0.0, 50.0])}
 
 
@@ -323,6 +328,9 @@ def build_grid(sc, desc):
         return j["QG"](dx=h, dy=h, dz=h, center=c)
     if desc == "rect":
         return j["RG"].uniform(shape, h, center=c)
+    if desc == "rect_corner":       # same mesh written lower-corner style: edges 0, h, 2h, ...
+        e = [jnp.asarray(h * np.arange(shape[a] + 1)) for a in range(3)]
+        return j["RG"](x_edges=e[0], y_edges=e[1], z_edges=e[2])
     if desc == "rect_shift":
         e = [jnp.asarray(sc["shift"][a] + h * np.arange(shape[a] + 1)) for a in range(3)]
         return j["RG"](x_edges=e[0], y_edges=e[1], z_edges=e[2])
@@ -361,13 +369,19 @@ def run_scene(sc, desc):
         objects.append(block)
         wc = fd.WaveCharacter(wavelength=12 * h)
         ax = sc["axis"]
-        if sc["src"] == "plane":
+        if sc["src"] != "dipole":
             pgs = [None, None, None]
             pgs[ax] = 1
             pol = [0, 0, 0]
             pol[(ax + 1) % 3] = 1
-            source = fd.UniformPlaneSource(name="src", partial_grid_shape=tuple(pgs), wave_character=wc, direction="+",
-                                           fixed_E_polarization_vector=tuple(pol))
+            kw = dict(name="src", partial_grid_shape=tuple(pgs), wave_character=wc, direction="+",
+                      fixed_E_polarization_vector=tuple(pol))
+            if sc["src"].endswith("_tilt"):
+                kw.update(azimuth_angle=sc.get("tilt", [7.0, 5.0])[0], elevation_angle=sc.get("tilt", [7.0, 5.0])[1])
+            if sc["src"].startswith("gauss"):
+                source = fd.GaussianPlaneSource(radius=2.5 * h, **kw)
+            else:
+                source = fd.UniformPlaneSource(**kw)
             tr = tuple(a for a in range(3) if a != ax)
             constraints.append(source.same_size(volume, axes=tr))
             constraints.append(source.place_relative_to(volume, axes=(ax,), own_positions=(-1,), other_positions=(-1,),
@@ -430,6 +444,8 @@ def scene_verdict(sc, results):
             return f"description {d} fails on a scene the uniform policy simulates: {r}"
         if r["_T"] != ref["_T"] or abs(r["_dt"] - ref["_dt"]) > 1e-12 * ref["_dt"] or not r["_uniform"]:
             return f"description {d}: steps/dt/uniform = {r['_T']}, {r['_dt']!r}, {r['_uniform']} vs {ref['_T']}, {ref['_dt']!r}"
+        if d == "rect_corner" and any(e[0] != 0.0 for e in r["_edges"]):
+            return "lower-corner explicit grid did not keep its origin"
         if d in ("rect", "quasi") and r["_edges"] != ref["_edges"]:
             return f"description {d} resolves to different edges than the uniform policy"
         for k, v in ref.items():
@@ -462,6 +478,11 @@ def run_scenes(ctx):
     # the first scene always declares the volume by lengths under an off-origin centre (negative, non-multiple, multiple)
     h0 = scenes[0]["h"]
     scenes[0].update(vol="real", center=[2 * h0, -1.7 * h0, 0.9 * h0])
+    # every run has plane sources: scene i uses SRC_CYCLE[i] (uniform untilted, Gaussian tilted, dipole, Gaussian, tilted)
+    for i, sc in enumerate(scenes):
+        sc["src"] = SRC_CYCLE[i % len(SRC_CYCLE)]
+        if sc["src"] != "dipole":          # a plane source needs room along its axis and periodic/PML sides are fine
+            sc["shape"][sc["axis"]] = max(sc["shape"][sc["axis"]], 6)
     dq = Deferred(ctx)
     for i, sc in enumerate(scenes):
         results, verdict = eval_scene(ctx, sc)
@@ -522,10 +543,12 @@ def search(ctx, hints):
                 ctx.violation(case, v)
                 return
     # smallest scenes first
-    base = {"op": "scene", "shape": [4, 4, 4], "h": 5e-8, "bt": ["periodic"] * 3, "src": "dipole", "axis": 2, "T": 8,
+    base = {"op": "scene", "shape": [4, 4, 4], "h": 5e-8, "bt": ["periodic"] * 3, "src": "dipole", "axis": 2, "T": 8, "tilt": [7.0, 5.0],
             "vol": "real", "center": [0.0, 0.0, 0.0], "shift": [0.0, 0.0, 0.0], "eps": 1.0, "sigma": 0.0}
     cands = [base, dict(base, vol="grid"), dict(base, src="plane"), dict(base, shape=[4, 6, 4], center=[1e-8, 0.0, -2e-8]),
-             dict(base, h=1.23456789e-8), dict(base, shape=[6, 6, 6], bt=["pml", "pecpmc", "periodic"], src="plane")]
+             dict(base, h=1.23456789e-8), dict(base, shape=[6, 6, 6], bt=["pml", "pecpmc", "periodic"], src="plane"),
+             dict(base, shape=[4, 4, 6], src="gauss_tilt", shift=[7e-7, -9e-7, 1.1e-6]),
+             dict(base, shape=[4, 4, 6], src="plane", shift=[-7e-7, 9e-7, -1.1e-6])]
     cands += [gen_scene(rng, small=(i < 3)) for i in range(ctx.scale(4, 10))]
     for sc in cands:
         _, v = eval_scene(ctx, sc)
